@@ -14,7 +14,7 @@ EXTRA = ['{person(A,Y)} :- pp(A,Y). s(A,B) :- a(A), B = #sum{Y : person(A,Y)}. f
 
 
 def corr(rng, quick):
-    return corr_inline.run(rng, 40 if quick else 2000, corpus_limit=40 if quick else None)
+    return corr_inline.run(rng, 100 if quick else 2000, corpus_limit=40 if quick else None)
 
 
 def run(ctx) -> int:
